@@ -120,7 +120,7 @@ def tool_op_jobs(T, quick):
     def dbg(*cmds):
         return [T['debugfs'], '-w', '-R', cmds[0], '{img}'] if len(cmds) == 1 else None
     bases = ['ext4csum', 'inline', 'eainode', 'quota', 'metabg', 'bs4k', 'bigalloc', 'mmp', 'desc128', 'deepext']
-    for name in bases if not quick else ['ext4csum', 'inline', 'metabg', 'bigalloc', 'desc128']:
+    for name in bases if not quick else ['ext4csum', 'inline', 'metabg', 'bigalloc', 'desc128', 'deepext']:
         D = lambda c: [T['debugfs'], '-w', '-R', c, '{img}']
         ops = [('mkdir', [D('mkdir /newdir')]), ('write', [D('write %s /newfile' % payload)]), ('symlink', [D('symlink /sl /one')]), ('long symlink', [D('symlink /sl2 ' + 'y' * 200)]),
                ('link+unlink', [D('ln /one /one2'), D('unlink /hard')]), ('rm', [D('rm /f12')]), ('rmdir', [D('rmdir /lin')] if False else [D('rm /lin/n00')]), ('mknod', [D('mknod /pipe p')]),
